@@ -15,6 +15,7 @@ import (
 	_ "verifharness/props/c12"
 	_ "verifharness/props/c14"
 	_ "verifharness/props/c15"
+	_ "verifharness/props/c16"
 	_ "verifharness/props/c17"
 	_ "verifharness/props/c18"
 	_ "verifharness/props/c19"
